@@ -417,14 +417,20 @@ func overlaps(h []rawOp) int {
 	return n
 }
 
-func historyLines(s sut, h []rawOp) []string {
+// historyLines renders a history: client (pre = the sequential prefix),
+// [call stamp, return stamp], operation and reply.
+func historyLines(s sut, nG int, h []rawOp) []string {
 	out := make([]string, 0, len(h))
 	for _, r := range h {
 		d := "<panic> " + r.panicMsg
 		if r.panicMsg == "" {
 			d = s.describe(r.in, r.out)
 		}
-		out = append(out, fmt.Sprintf("g%d [%d,%d] %s", r.g, r.call, r.ret, d))
+		who := fmt.Sprintf("g%d", r.g)
+		if r.g == nG {
+			who = "pre"
+		}
+		out = append(out, fmt.Sprintf("%s [%d,%d] %s", who, r.call, r.ret, d))
 	}
 	return out
 }
@@ -482,7 +488,7 @@ func runLinGroup(idx int, g group) {
 		h := j.history()
 		text := p.String()
 		replay := func() map[string]any {
-			return map[string]any{"structure": g.kind, "seed": mon.Seed(), "group": idx, "sub": sub, "program": text, "history": historyLines(s, h)}
+			return map[string]any{"structure": g.kind, "seed": mon.Seed(), "group": idx, "sub": sub, "program": text, "history": historyLines(s, j.nG, h)}
 		}
 		panicked := false
 		for _, r := range h {
@@ -535,7 +541,7 @@ func runLinGroup(idx int, g group) {
 		}
 		rec.Case(idx, text, ov > 0)
 		if ov > 2 && sub == 3 && rec.WantSample() {
-			rec.Sample(map[string]any{"structure": g.kind, "program": text, "history": historyLines(s, h), "overlapping_pairs": ov, "verdict": "linearizable"})
+			rec.Sample(map[string]any{"structure": g.kind, "program": text, "history": historyLines(s, j.nG, h), "overlapping_pairs": ov, "verdict": "linearizable"})
 		}
 	}
 }
